@@ -5,13 +5,15 @@ Three driver families, all bounded-exhaustive on the real implementation:
 A  clock histories (props/c18_clocks.py)  every history of <= L steps among n nodes over {local, send,
    receive any in-flight message} on real LamportClock / VectorClock / HybridLogicalClock objects (the HLC
    over real NodeClock skew/drift models and one real Clock advanced by 0/1 tick per step);
-   happened-before from the history's own graph.
+   happened-before from the history's own graph; VectorClock.merge (the combined view) checked on every
+   pair of event clocks, with clocks that know different node sets.
 B  CRDT worlds (props/c18_crdt.py)        explicit-state BFS (mc/bfs.py) over 2-3 real replicas: local
    updates interleaved with merges in any direction (repeated, transitive), merges through
    to_dict/from_dict, and round trips; op-based specification with causal knowledge as the oracle; merge
    laws on deep copies of every reached world.
-C  CRDTStore gossip (props/c18_store.py)  real Simulation + Network, owned random.choice, convergence and
-   value at quiescence.
+C  CRDTStore gossip (props/c18_store.py)  real Simulation + Network, peer-list topologies (mesh, one-way ring,
+   star, one-way newcomer), owned random.choice; every store holds the value specified for the writes that the
+   delivered gossip messages brought to it.
 """
 from __future__ import annotations
 
@@ -43,8 +45,11 @@ def clock_configs(tier):
         out += [("lamport", dict(kind="lamport", n=2, L=7, variant=v), 1) for v in ((0, 0), (0, 3))]
         out += [("lamport", dict(kind="lamport", n=3, L=6, variant=(0, 2, 5)), 1)]
         out += [("lamport", dict(kind="lamport", n=3, L=7, variant=(0, 0, 0)), 2)]
-        out += [("vector", dict(kind="vector", n=2, L=7, variant=v), 1) for v in ("full", "self")]
-        out += [("vector", dict(kind="vector", n=3, L=6, variant=v), 2) for v in ("full", "self")]
+        # vector clocks built knowing all ids / only their own / own + next / only the others
+        out += [("vector", dict(kind="vector", n=2, L=7, variant=v), 2) for v in ("full", "self")]
+        out += [("vector", dict(kind="vector", n=2, L=6, variant="others"), 1)]
+        out += [("vector", dict(kind="vector", n=3, L=6, variant="partial"), 2)]
+        out += [("vector", dict(kind="vector", n=3, L=5, variant=v), 1) for v in ("full", "self", "others")]
         # HLC, 2 nodes: all 16 ordered pairs of clock models; 7 steps for 3 of them, 6 steps for the rest;
         # the receive-timestamp modes alternate
         deep = [("id", "+skew"), ("-skew", "id"), ("fast", "-skew")]
@@ -65,9 +70,11 @@ def clock_configs(tier):
         out += [("lamport", dict(kind="lamport", n=4, L=6, variant=(0, 0, 1, 3)), 2)]
         out += [("lamport", dict(kind="lamport", n=5, L=5, variant=(0, 0, 0, 0, 0)), 2)]
         out += [("vector", dict(kind="vector", n=2, L=9, variant="self"), 3)]
-        out += [("vector", dict(kind="vector", n=2, L=8, variant="full"), 2)]
-        out += [("vector", dict(kind="vector", n=3, L=7, variant=v), 2) for v in ("full", "self")]
+        out += [("vector", dict(kind="vector", n=2, L=8, variant=v), 2) for v in ("full", "others")]
+        out += [("vector", dict(kind="vector", n=3, L=7, variant=v), 3) for v in ("self", "partial")]
+        out += [("vector", dict(kind="vector", n=3, L=6, variant=v), 2) for v in ("full", "others")]
         out += [("vector", dict(kind="vector", n=4, L=6, variant="self"), 2)]
+        out += [("vector", dict(kind="vector", n=4, L=5, variant="partial"), 2)]
         out += [("vector", dict(kind="vector", n=5, L=5, variant="full"), 2)]
         # HLC 2 nodes: all 16 ordered model pairs x both receive-timestamp modes at 7 steps, 4 pairs at 8 steps
         for a in M4:
@@ -118,14 +125,31 @@ def crdt_configs(tier):
 
 
 def store_configs(tier):
-    """[(typ, n stores, max writes, deviation bound (None = all choice sequences), elements)]"""
+    """[(typ, n stores, max writes, deviation bound (None = all choice sequences), elements, peer-list topology)]"""
     if tier == "quick":
-        return [("GCounter", 2, 3, None, None), ("PNCounter", 2, 3, None, None), ("ORSet", 2, 3, None, ("x", "y")),
-                ("GCounter", 3, 2, 2, None), ("GCounter", 3, 3, 0, None), ("PNCounter", 3, 2, 1, None),
-                ("ORSet", 3, 2, 1, ("x", "y")), ("ORSet", 2, 2, None, (1, "x"))]
-    return [("GCounter", 2, 4, None, None), ("PNCounter", 2, 4, None, None), ("ORSet", 2, 4, None, ("x", "y")),
-            ("GCounter", 3, 2, 4, None), ("GCounter", 3, 3, 2, None), ("PNCounter", 3, 3, 2, None),
-            ("ORSet", 3, 3, 2, ("x", "y")), ("ORSet", 2, 3, None, (1, "x")), ("ORSet", 3, 2, 1, (1, "x"))]
+        out = [("GCounter", 2, 3, None, None, "mesh"), ("PNCounter", 2, 3, None, None, "mesh"),
+               ("ORSet", 2, 3, None, ("x", "y"), "mesh"),
+               ("GCounter", 3, 2, 2, None, "mesh"), ("GCounter", 3, 3, 0, None, "mesh"),
+               ("PNCounter", 3, 2, 1, None, "mesh"),
+               ("ORSet", 3, 2, 1, ("x", "y"), "mesh"), ("ORSet", 2, 2, None, (1, "x"), "mesh")]
+        # asymmetric / sparse peer lists
+        out += [("GCounter", 2, 3, None, None, t) for t in ("oneway", "oneway-rev")]
+        out += [("GCounter", 3, 2, None, None, "ring"), ("ORSet", 3, 2, None, ("x", "y"), "ring"),
+                ("PNCounter", 3, 2, None, None, "ring")]
+        out += [("GCounter", 3, 2, 1, None, t) for t in ("star", "newcomer-out", "newcomer-in")]
+        return out
+    out = [("GCounter", 2, 4, None, None, "mesh"), ("PNCounter", 2, 4, None, None, "mesh"),
+           ("ORSet", 2, 4, None, ("x", "y"), "mesh"),
+           ("GCounter", 3, 2, 4, None, "mesh"), ("GCounter", 3, 3, 2, None, "mesh"),
+           ("PNCounter", 3, 3, 2, None, "mesh"),
+           ("ORSet", 3, 3, 2, ("x", "y"), "mesh"), ("ORSet", 2, 3, None, (1, "x"), "mesh"),
+           ("ORSet", 3, 2, 1, (1, "x"), "mesh")]
+    for typ, el in (("GCounter", None), ("PNCounter", None), ("ORSet", ("x", "y"))):
+        out += [(typ, 2, 3, None, el, t) for t in ("oneway", "oneway-rev")]
+        out += [(typ, 3, 3, None, el, "ring")]
+        out += [(typ, 3, 2, 2, el, t) for t in ("star", "newcomer-out", "newcomer-in")]
+    out += [("GCounter", 4, 2, None, None, "ring"), ("GCounter", 4, 2, 1, None, "star")]
+    return out
 
 
 # ---------------------------------------------------------------------------
@@ -169,8 +193,8 @@ def main(tier, seed, only=None):
                     "states + update knowledge) of the BFS, transitions = real update/merge/serialisation calls, "
                     "executions = states (each is the end of a distinct shortest trace run on the real objects); "
                     "non-trivial = worlds in which some replica has received an update issued at another replica.  "
-                    "store driver: executions = complete Simulation runs; non-trivial = two stores wrote the key or "
-                    "a writer merged remote state."),
+                    "store driver: executions = complete Simulation runs; non-trivial = some store has received, by "
+                    "delivered gossip, a write issued at another store."),
               assumptions=["happened-before is the transitive closure of program order and send->receive edges of "
                            "the generated history (bit masks), computed without consulting any clock",
                            "HLC: a local event is modelled as a send whose message is never received (HLC.send() is "
@@ -180,7 +204,8 @@ def main(tier, seed, only=None):
                            "replica), as a real HLC guarantees; the tie rule checked is the documented one: "
                            "HLCTimestamp total order (physical_ns, logical, node_id)",
                            "a message is received at most once, by any node other than its sender",
-                           "store driver: fault-free network, 3 complete gossip rounds after the last write"])
+                           "store driver: fault-free network; the writes a store has received are derived from the "
+                           "Write / GossipTick / GossipPush / GossipResponse events the engine delivers (control hook)"])
     jobs = []
     # ---- A
     cl_meta = {}
@@ -191,7 +216,7 @@ def main(tier, seed, only=None):
         d = run.driver(name, {})
         d.bounds.setdefault("configs", []).append(
             {"nodes": cfg["n"], "max_steps": cfg["L"], "variant": cfg["variant"], "alphabet": cfg.get("alphabet", "lsr")})
-        est = {"lamport": 4, "vector": 35, "hlc": 18}[cfg["kind"]]
+        est = {"lamport": 4, "vector": 75, "hlc": 18}[cfg["kind"]]
         prefs = CL.prefixes_of(cfg, split)
         for p in prefs:
             jobs.append(("clock", name, dict(cfg, prefix=p), est * 10 ** (cfg["L"] - split)))
@@ -207,19 +232,21 @@ def main(tier, seed, only=None):
         max_seconds = None  # wall-clock caps would make the explored set load-dependent
         jobs.append(("crdt", name, kw, max_states, max_seconds, cost * 1e9))
     # ---- C
-    for typ, n, maxw, bound, elements in store_configs(tier):
+    for typ, n, maxw, bound, elements, topo in store_configs(tier):
         name = "store-gossip"
         if only and name not in only:
             continue
         d = run.driver(name, {})
-        progs = ST.programs(typ, n, maxw, elements or ("x", "y"))
+        progs = ST.programs(typ, n, maxw, elements or ("x", "y"), topo)
         d.bounds.setdefault("configs", []).append(
-            {"type": typ, "stores": n, "max_writes": maxw, "programs": len(progs),
+            {"type": typ, "stores": n, "peer_lists": topo, "max_writes": maxw, "programs": len(progs),
              "peer_choice_deviation_bound": "all" if bound is None else bound, "elements": elements})
-        nchunks = 1 if n == 2 else 24
+        branching = any(len(pl) > 1 for pl in ST.peer_lists(topo, n))
+        nchunks = 24 if (branching or len(progs) > 400) else 4
         for ch in [progs[i::nchunks] for i in range(nchunks)]:
             if ch:
-                jobs.append(("store", name, (typ, n, ch, bound, elements), 1e8 * len(ch) * (1 if n == 2 else 20)))
+                jobs.append(("store", name, (typ, n, ch, bound, elements, topo),
+                             1e8 * len(ch) * (20 if branching and bound != 0 else 1)))
     # heavy first; the seed rotates the order of equal-cost sub-spaces only
     jobs = rotate(jobs, seed)
     jobs.sort(key=lambda j: -j[-1])
@@ -237,7 +264,7 @@ def main(tier, seed, only=None):
             d.nontrivial += st["nontrivial"]
             outcomes.setdefault(name, set()).update(st["outcomes"])
             ex = d.extra
-            for k in ("prefixes", "pairs_hb", "pairs_conc", "reorder"):
+            for k in ("prefixes", "pairs_hb", "pairs_conc", "reorder", "merges"):
                 ex[k] = ex.get(k, 0) + st[k]
             for fp, (desc, rep) in st["viol"].items():
                 found.append((len(rep["labels"]), fp, desc, rep))
@@ -265,6 +292,10 @@ def main(tier, seed, only=None):
             d.nontrivial += st["nontriv"]
             outcomes.setdefault(name, set()).update(st["outcomes"])
             d.extra["max_choice_points"] = max(d.extra.get("max_choice_points", 0), st["points"])
+            d.extra["runs_where_every_store_received_every_write"] = \
+                d.extra.get("runs_where_every_store_received_every_write", 0) + st["all_full"]
+            d.extra["runs_with_a_push_from_an_unlisted_sender"] = \
+                d.extra.get("runs_with_a_push_from_an_unlisted_sender", 0) + st["unlisted_push"]
             if st["unfinished"]:
                 d.exhaustive = False
                 d.caps.append(f"{st['unfinished']} runs hit the event horizon / storm guard (not judged)")
@@ -286,6 +317,9 @@ def main(tier, seed, only=None):
             d.extra["event_pairs_happened_before"] = d.extra.pop("pairs_hb", 0)
             d.extra["event_pairs_concurrent"] = d.extra.pop("pairs_conc", 0)
             d.extra["out_of_order_receives"] = d.extra.pop("reorder", 0)
+            m = d.extra.pop("merges", 0)
+            if m:
+                d.extra["merge_calls_checked"] = m
             d.extra["states_note"] = "distinct timestamp sequences, hash sets capped at 50k per sub-space"
     # re-run every violation from its replay data before reporting it
     for fp, (desc, rep) in list(run.violations.items()):
